@@ -122,6 +122,11 @@ fn dump_items<'tcx>(tcx: TyCtxt<'tcx>, out: &mut String) -> usize {
             }
             DefKind::Enum | DefKind::Struct => {
                 let adt = tcx.adt_def(did);
+                let discrs: Vec<String> = if kind == DefKind::Enum {
+                    adt.discriminants(tcx).map(|(_, d)| format!("{}", d.val)).collect()
+                } else {
+                    Vec::new()
+                };
                 let mut vs = String::from("[");
                 for (i, v) in adt.variants().iter().enumerate() {
                     if i > 0 {
@@ -135,7 +140,11 @@ fn dump_items<'tcx>(tcx: TyCtxt<'tcx>, out: &mut String) -> usize {
                             format!("{{\"f\":{},\"ty\":{}}}", esc(f.name.as_str()), esc(&format!("{}", fty)))
                         })
                         .collect();
-                    vs.push_str(&format!("{{\"v\":{},\"fields\":[{}]}}", esc(v.name.as_str()), fs.join(",")));
+                    let dj = match discrs.get(i) {
+                        Some(d) => format!(",\"discr\":\"{}\"", d),
+                        None => String::new(),
+                    };
+                    vs.push_str(&format!("{{\"v\":{},\"fields\":[{}]{}}}", esc(v.name.as_str()), fs.join(","), dj));
                 }
                 vs.push(']');
                 out.push_str(&format!(
